@@ -256,6 +256,9 @@ type Target struct {
 	Got  []Got
 	Name string
 	Echo bool
+	// OversizeFirst makes the target send a datagram too large for the client's path right before
+	// each echo, so that the relay's downlink sees a datagram it must skip followed by a good one.
+	OversizeFirst bool
 }
 
 // NewTarget opens echo target i at 127.A.B.(100+i):7000.
@@ -275,6 +278,13 @@ func (t *Target) Serve() {
 			return
 		}
 		t.Got = append(t.Got, Got{string(buf[:n]), from})
+		if t.Echo && t.OversizeFirst {
+			big := make([]byte, 1480)
+			for i := range big {
+				big[i] = 'Z'
+			}
+			vudp.UDP_WriteToUDPAddrPort(t.Sock, big, from)
+		}
 		if t.Echo {
 			reply := "echo:" + string(buf[:n])
 			if _, err := vudp.UDP_WriteToUDPAddrPort(t.Sock, []byte(reply), from); err != nil {
